@@ -49,6 +49,31 @@ class Ev:
                                         for k, v in self.__dict__.items() if k not in ("kind", "loc")})
 
 
+MUT_WORDS_PARAM = re.compile(r"^&(?:'\S+ )?mut (\[.*\]|std::vec::Vec<.*>|std::boxed::Box<\[.*\].*>)$")
+
+
+def helper_storage_params(b):
+    """parameters of a helper introduced after the review (not in rules/census.json) through which storage words are
+    handed in: `words: &mut [u64]`, `&mut Vec<I>`, `&mut Box<[u64]>`"""
+    out = {}
+    if mir.CENSUS is None or b.path in mir.CENSUS or b.kind == "Closure":
+        return out
+    for l in range(1, b.arg_count + 1):
+        if MUT_WORDS_PARAM.match(re.sub(r"'\{erased\} ?", "", b.local_ty(l))):
+            out[b.local_name(l)] = l
+    return out
+
+
+def is_new_private_helper(b):
+    """a non-public function (or a closure of one) that is not part of the reviewed tree's census"""
+    if mir.CENSUS is None:
+        return False
+    if b.kind == "Closure":
+        parent = b.crate.body(b.parent) if b.parent else None
+        return parent is not None and is_new_private_helper(parent)
+    return b.kind in ("Fn", "AssocFn") and b.path not in mir.CENSUS and not b.vis.startswith("Public")
+
+
 def carriers(b):
     """locals (by id) that carry storage words: flow into a Bvf/Bvd aggregate's data or into `x.data = ..`"""
     res = set()
@@ -143,6 +168,8 @@ def storage_target(b, e, carr):
         return cur[1], idx, via
     if cur[0] == "var" and len(cur) > 2 and cur[2] in carr:
         return cur, idx, via
+    if cur[0] == "param" and cur[1] in helper_storage_params(b):
+        return cur, idx, via
     return None
 
 
@@ -179,6 +206,8 @@ def events(b):
         loc = b.call_loc(bb)
         name = fn["name"] if fn else "<indirect>"
         args = [b.e_operand(a) for a in t["args"]]
+        if _inline_helper(b, t, fn, args, carr, loc, out):
+            continue
         for k, a in enumerate(t["args"]):
             if not is_mut_ref_operand(b, a):
                 continue
@@ -201,6 +230,66 @@ def events(b):
     return out
 
 
+_INLINING = []
+
+
+def _inline_helper(b, t, fn, args, carr, loc, out):
+    """A call that hands storage (`&mut self`, `&mut self.data`, a carrier) to a helper that did not exist on the
+    reviewed tree: splice the helper's own storage events in at the call site, with its parameters replaced by the
+    actual arguments. Returns True when the call was expanded."""
+    h = b.crate.new_helper(fn)
+    if h is None or h is b or h.path in _INLINING or len(_INLINING) > 3 or len(args) != h.arg_count:
+        return False
+    objmap = {}
+    for k, a in enumerate(t["args"]):
+        if not is_mut_ref_operand(b, a):
+            continue
+        pname = ("param", h.local_name(k + 1))
+        fam = mir.ty_family(b.local_ty(a["p"]["l"]))
+        if fam in ("Bvf", "Bvd"):
+            objmap[pname] = args[k]
+            continue
+        tgt = storage_target(b, args[k], carr)
+        if tgt is not None:
+            if tgt[1] is not None:
+                return False        # a sub-slice is handed over: indices would need re-basing
+            objmap[pname] = tgt[0]
+    if not objmap:
+        return False
+    _INLINING.append(h.path)
+    try:
+        hevs = events(h)
+        from . import mask as _mask
+        hmasks = _mask.find_mask_events(h, hevs)
+    finally:
+        _INLINING.pop()
+    mapping = {("param", h.local_name(i + 1)): args[i] for i in range(h.arg_count)}
+
+    def tr(x):
+        return mir.subst_expr(x, mapping) if isinstance(x, tuple) else x
+
+    for e in hevs:
+        d = {}
+        for k2, v in e.__dict__.items():
+            if k2 in ("kind", "loc"):
+                continue
+            if k2 == "obj":
+                d[k2] = objmap.get(v, tr(v))
+            elif k2 == "args" or (k2 == "value" and isinstance(v, tuple) and v and isinstance(v[0], tuple)):
+                d[k2] = tuple(tr(x) for x in v)
+            elif isinstance(v, tuple):
+                d[k2] = tr(v)
+            else:
+                d[k2] = v
+        ne = Ev(e.kind, loc, **d)
+        ne.inlined_from = h.key
+        out.append(ne)
+    for m in hmasks:
+        out.append(Ev("maskimport", loc, obj=objmap.get(m.obj, tr(m.obj)), form=m.form, L=tr(m.L) if m.L is not None else None,
+                      detail="%s [in helper %s]" % (m.detail, h.name)))
+    return True
+
+
 def is_zero_data(e):
     """expression of an all-zero storage initialiser"""
     e = mir.strip_casts(e)
@@ -214,6 +303,10 @@ def is_zero_data(e):
         if is_call(inner, "take") and is_call(inner[3][0], "repeat"):
             v = inner[3][0][3][0]
             return v == ("int", 0)
+    if is_call(e, "from_elem") and len(e[3]) == 2:
+        # vec![0; n] (normally already rewritten by mir.norm_expr)
+        v = e[3][0]
+        return v == ("int", 0) or (v[0] == "assoc" and v[1] == "ZERO")
     if e[0] == "phi":
         return all(is_zero_data(x) for x in e[2])
     return False
